@@ -4,4 +4,741 @@
 import ClockBound.Model.SeqlockSys
 namespace ClockBound.SL
 
+/-! ### C18: the measure argument
+
+`rmu`/`RWF` are literal copies of `C18.mu`/`C18.WF` (which live in the property file that imports
+this one); the property file identifies them by `rfl`. -/
+
+def rmu : RPc → Nat
+  | .idle => 0
+  | .version => 2 + RETRIES * (N + 2)
+  | .gen1 => 1 + RETRIES * (N + 2)
+  | .copy _ retries todo _ => (retries - 1) * (N + 2) + todo.length + 2
+  | .fence _ retries _ => (retries - 1) * (N + 2) + 2
+  | .gen2 _ retries _ => (retries - 1) * (N + 2) + 1
+
+def RWF : RPc → Prop
+  | .copy _ retries todo _ => 0 < retries ∧ 0 < todo.length ∧ todo.length ≤ N ∧ retries ≤ RETRIES
+  | .fence _ retries _ => 0 < retries ∧ retries ≤ RETRIES
+  | .gen2 _ retries _ => 0 < retries ∧ retries ≤ RETRIES
+  | _ => True
+
+theorem filter_ne_length_lt (todo : List Nat) (c : Nat) (h : c ∈ todo) :
+    (todo.filter (· != c)).length < todo.length := by
+  apply List.length_filter_lt_length_iff_exists.mpr
+  exact ⟨c, h, by simp⟩
+
+theorem afterCopy_cases (a : Ann) (g k : Nat) (got : List (Nat × Nat)) :
+    afterCopy a g k got = .fence g k got ∨ afterCopy a g k got = .gen2 g k got := by
+  unfold afterCopy; split <;> simp
+
+theorem rStep_decreases (a : Ann) (log : Log) (r : Reader) (pc pm : Nat) (h : r.pc ≠ .idle)
+    (hwf : RWF r.pc) :
+    RWF (rStep a log r pc pm).1.pc ∧
+    (((rStep a log r pc pm).2.1.isSome ∧ (rStep a log r pc pm).1.pc = .idle) ∨
+     ((rStep a log r pc pm).2.1 = none ∧ (rStep a log r pc pm).1.pc ≠ .idle ∧
+       rmu (rStep a log r pc pm).1.pc < rmu r.pc)) := by
+  obtain ⟨rpc, view, cg, cache, gi, ai⟩ := r
+  cases rpc with
+  | idle => exact absurd rfl h
+  | version =>
+    simp only [rStep]
+    split <;> simp [RWF, rmu]
+  | gen1 =>
+    simp only [rStep]
+    split
+    · simp [RWF, rmu]
+    · simp [RWF, rmu, RETRIES, N]
+  | copy g1 k todo got =>
+    simp only [RWF] at hwf
+    obtain ⟨hk, hl, hn, hr⟩ := hwf
+    simp only [rStep]
+    have hidx : min pc (todo.length - 1) < todo.length := by omega
+    rw [List.getElem?_eq_getElem hidx]
+    simp only []
+    have hc := filter_ne_length_lt todo _ (List.getElem_mem hidx)
+    generalize todo[min pc (todo.length - 1)] = c at hc ⊢
+    generalize hgot : (c, (load log view (Loc.cell c) Ord.relaxed pm).1) :: got = got'
+    split
+    · rcases afterCopy_cases a g1 k got' with e | e <;> rw [e] <;> simp [RWF, rmu, hk, hr] <;> omega
+    · rename_i hne
+      have : 0 < (todo.filter (· != c)).length := by
+        rcases hh : todo.filter (· != c) with _ | ⟨x, xs⟩
+        · simp [hh] at hne
+        · simp
+      refine ⟨⟨hk, this, by omega, hr⟩, Or.inr ⟨trivial, by simp, ?_⟩⟩
+      simp only [rmu]
+      omega
+  | fence g1 k got =>
+    simp only [rStep]
+    simp only [RWF] at hwf
+    simp [RWF, rmu, hwf]
+  | gen2 g1 k got =>
+    simp only [RWF] at hwf
+    obtain ⟨hk, hr⟩ := hwf
+    simp only [rStep]
+    split
+    · simp [RWF]
+    · split
+      · simp [RWF]
+      · rename_i hk1
+        simp [RWF, rmu, N]
+        omega
+
+theorem rmu_pos (p : RPc) (h : p ≠ .idle) (hwf : RWF p) : 0 < rmu p := by
+  cases p <;> simp [rmu] at * <;> omega
+
+/-- one step of the bounded-run fold of C18 -/
+def rStepF (a : Ann) (logs : Nat → Log) (picks : Nat → Nat × Nat)
+    (st : Reader × Option RResult) (k : Nat) : Reader × Option RResult :=
+  if st.2.isSome then st else
+  let out := rStep a (logs k) st.1 (picks k).1 (picks k).2
+  (out.1, out.2.1)
+
+theorem fold_bounded (a : Ann) (logs : Nat → Log) (picks : Nat → Nat × Nat) (ks : List Nat) :
+    ∀ (st : Reader × Option RResult),
+      (st.2.isSome ∨ (st.1.pc ≠ .idle ∧ RWF st.1.pc ∧ rmu st.1.pc ≤ ks.length)) →
+      (ks.foldl (rStepF a logs picks) st).2.isSome := by
+  induction ks with
+  | nil =>
+    intro st h
+    rcases h with h | ⟨h1, h2, h3⟩
+    · simpa using h
+    · have := rmu_pos _ h1 h2
+      simp at h3; omega
+  | cons k ks ih =>
+    intro st h
+    rw [List.foldl_cons]
+    apply ih
+    by_cases hs : st.2.isSome
+    · left; simp [rStepF, hs]
+    · rcases h with h | ⟨h1, h2, h3⟩
+      · exact absurd h hs
+      · simp only [rStepF, hs]
+        have := rStep_decreases a (logs k) st.1 (picks k).1 (picks k).2 h1 h2
+        rcases this with ⟨hw, ⟨hsome, _⟩ | ⟨_, hni, hlt⟩⟩
+        · left; simpa using hsome
+        · right
+          refine ⟨by simpa using hni, by simpa using hw, ?_⟩
+          simp only [List.length_cons] at h3
+          simp
+          omega
+
+theorem call_bounded (a : Ann) (logs : Nat → Log) (picks : Nat → Nat × Nat) (r : Reader) :
+    ((List.range stepBound).foldl (fun (st : Reader × Option RResult) k =>
+          if st.2.isSome then st else
+          let out := rStep a (logs k) st.1 (picks k).1 (picks k).2
+          (out.1, out.2.1)) (r.call, none)).2.isSome := by
+  apply fold_bounded a logs picks (List.range stepBound) (r.call, none)
+  right
+  refine ⟨by simp [Reader.call], by simp [Reader.call, RWF], ?_⟩
+  simp [Reader.call, rmu, stepBound]
+
+/-! ### the memory: newest message, admissible loads -/
+
+instance : LawfulBEq Loc where
+  rfl := by intro a; cases a <;> simp [BEq.beq, instBEqLoc.beq] 
+  eq_of_beq := by
+    intro a b h
+    cases a <;> cases b <;> simp_all [BEq.beq, instBEqLoc.beq]
+
+theorem getLast?_filter_range_some (P : Nat → Bool) (m j : Nat) :
+    ((List.range m).filter P).getLast? = some j ↔
+      j < m ∧ P j = true ∧ ∀ k, j < k → k < m → P k = false := by
+  induction m with
+  | zero => simp
+  | succ m ih =>
+    rw [List.range_succ, List.filter_append]
+    by_cases hm : P m = true
+    · have : List.filter P [m] = [m] := by simp [hm]
+      rw [this, List.getLast?_concat]
+      constructor
+      · intro h
+        have : m = j := by simpa using h
+        subst this
+        exact ⟨by omega, hm, fun k h1 h2 => by omega⟩
+      · rintro ⟨h1, h2, h3⟩
+        by_cases hj : j = m
+        · rw [hj]
+        · have := h3 m (by omega) (by omega)
+          simp [hm] at this
+    · have : List.filter P [m] = [] := by simp [hm]
+      rw [this, List.append_nil, ih]
+      have hm' : P m = false := by simpa using hm
+      constructor
+      · rintro ⟨h1, h2, h3⟩
+        refine ⟨by omega, h2, fun k hk1 hk2 => ?_⟩
+        by_cases hk : k = m
+        · rw [hk]; exact hm'
+        · exact h3 k hk1 (by omega)
+      · rintro ⟨h1, h2, h3⟩
+        have : j ≠ m := by intro e; rw [e] at h2; simp [hm'] at h2
+        exact ⟨by omega, h2, fun k hk1 hk2 => h3 k hk1 (by omega)⟩
+
+theorem getLast?_filter_range_none (P : Nat → Bool) (m : Nat) :
+    ((List.range m).filter P).getLast? = none ↔ ∀ k, k < m → P k = false := by
+  simp
+
+
+/-- message `j` of the log is at location `x` -/
+def atLoc (log : Log) (x : Loc) (j : Nat) : Bool := (log[j]?.map (·.loc == x)).getD false
+
+theorem atLoc_lt {log : Log} {x : Loc} {j : Nat} (h : atLoc log x j = true) : j < log.length := by
+  unfold atLoc at h
+  by_cases hj : j < log.length
+  · exact hj
+  · simp [List.getElem?_eq_none (Nat.le_of_not_lt hj)] at h
+
+theorem lastBefore_eq (log : Log) (x : Loc) (n : Nat) :
+    lastBefore log x n = ((List.range (min n log.length)).filter (atLoc log x)).getLast? := rfl
+
+theorem lastBefore_some {log : Log} {x : Loc} {n j : Nat} :
+    lastBefore log x n = some j ↔
+      j < min n log.length ∧ atLoc log x j = true ∧
+        ∀ k, j < k → k < min n log.length → atLoc log x k = false := by
+  rw [lastBefore_eq, getLast?_filter_range_some]
+
+theorem lastBefore_none {log : Log} {x : Loc} {n : Nat} :
+    lastBefore log x n = none ↔ ∀ k, k < min n log.length → atLoc log x k = false := by
+  rw [lastBefore_eq, getLast?_filter_range_none]
+
+/-- any message at `x` is at or before the newest one -/
+theorem le_of_lastBefore {log : Log} {x : Loc} {j i : Nat}
+    (h : lastBefore log x log.length = some j) (hi : atLoc log x i = true) : i ≤ j := by
+  obtain ⟨h1, h2, h3⟩ := lastBefore_some.mp h
+  by_cases hij : i ≤ j
+  · exact hij
+  · have := h3 i (by omega) (by have := atLoc_lt hi; omega)
+    rw [this] at hi; cases hi
+
+theorem lastBefore_isSome_of_atLoc {log : Log} {x : Loc} {i : Nat} (hi : atLoc log x i = true) :
+    ∃ j, lastBefore log x log.length = some j := by
+  cases h : lastBefore log x log.length with
+  | some j => exact ⟨j, rfl⟩
+  | none =>
+    have := lastBefore_none.mp h i (by have := atLoc_lt hi; omega)
+    rw [this] at hi; cases hi
+
+/-- the coherence part of `ViewOk` — all the fresh-read lemmas need -/
+def CohOk (log : Log) (v : View) : Prop :=
+  ∀ x j, lastBefore log x log.length = some j → v.cohOf x ≤ j
+
+theorem admissible_eq (log : Log) (v : View) (x : Loc) :
+    admissible log v x = (List.range log.length).filter
+      (fun j => decide (max (v.cohOf x) ((lastBefore log x v.cur).getD 0) ≤ j) && atLoc log x j) := rfl
+
+theorem mem_admissible {log : Log} {v : View} {x : Loc} {j : Nat} (h : j ∈ admissible log v x) :
+    atLoc log x j = true := by
+  rw [admissible_eq] at h
+  simp at h
+  exact h.2.2
+
+theorem admissible_last {log : Log} {v : View} {x : Loc} {j : Nat} (hv : CohOk log v)
+    (h : lastBefore log x log.length = some j) : (admissible log v x).getLast? = some j := by
+  rw [admissible_eq, getLast?_filter_range_some]
+  obtain ⟨h1, h2, h3⟩ := lastBefore_some.mp h
+  rw [Nat.min_self] at h1 h3
+  refine ⟨h1, ?_, fun k hk1 hk2 => by simp [h3 k hk1 hk2]⟩
+  have hc := hv x j h
+  have hl : (lastBefore log x v.cur).getD 0 ≤ j := by
+    cases hh : lastBefore log x v.cur with
+    | none => simp
+    | some i =>
+      simp only [Option.getD_some]
+      exact le_of_lastBefore h (lastBefore_some.mp hh).2.1
+  simp [h2]
+  omega
+
+theorem admissible_nil {log : Log} {v : View} {x : Loc}
+    (h : lastBefore log x log.length = none) : admissible log v x = [] := by
+  rw [admissible_eq, List.filter_eq_nil_iff]
+  intro k hk
+  have := lastBefore_none.mp h k (by simpa using hk)
+  simp [this]
+
+theorem latest_some {log : Log} {x : Loc} {j : Nat} (h : lastBefore log x log.length = some j) :
+    latest log x = (log[j]?.getD default).val := by
+  unfold latest
+  rw [h]
+  have := (lastBefore_some.mp h).1
+  have hj : j < log.length := by omega
+  simp [List.getElem?_eq_getElem hj]
+
+theorem latest_none {log : Log} {x : Loc} (h : lastBefore log x log.length = none) :
+    latest log x = 0 := by
+  unfold latest; rw [h]
+
+
+theorem cohOf_congr {v w : View} (h : v.coh = w.coh) (x : Loc) : v.cohOf x = w.cohOf x := by
+  unfold View.cohOf; rw [h]
+
+theorem find?_filter_ne (l : List (Loc × Nat)) (x y : Loc) (h : x ≠ y) :
+    (l.filter (fun p => p.1 != x)).find? (fun p => p.1 == y) = l.find? (fun p => p.1 == y) := by
+  induction l with
+  | nil => rfl
+  | cons p l ih =>
+    by_cases hp : p.1 = x
+    · have h1 : (p.1 != x) = false := by simp [hp]
+      have h2 : (p.1 == y) = false := by simp [hp, h]
+      rw [List.filter_cons, h1, List.find?_cons, h2]
+      simpa using ih
+    · have h1 : (p.1 != x) = true := by simp [hp]
+      rw [List.filter_cons, h1]
+      simp only [if_true, List.find?_cons]
+      rw [ih]
+
+theorem cohOf_setCoh (v : View) (x y : Loc) (j : Nat) :
+    (v.setCoh x j).cohOf y = if x = y then j else v.cohOf y := by
+  unfold View.setCoh View.cohOf
+  by_cases h : x = y
+  · simp [h]
+  · have : (x == y) = false := by simp [h]
+    simp only [List.find?_cons, this, h, if_false]
+    rw [find?_filter_ne _ _ _ h]
+
+/-- shape of a load result: nothing read, or some message `j` at `x` -/
+theorem load_spec (log : Log) (v : View) (x : Loc) (ord : Ord) (pick : Nat) :
+    load log v x ord pick = (0, 0, v) ∨
+    ∃ j, j ∈ admissible log v x ∧
+      (load log v x ord pick).1 = (log[j]?.getD default).val ∧
+      (load log v x ord pick).2.1 = j ∧
+      (load log v x ord pick).2.2.coh = (v.setCoh x j).coh ∧
+      (load log v x ord pick).2.2.acq = max v.acq (log[j]?.getD default).carried ∧
+      ((load log v x ord pick).2.2.cur = v.cur ∨
+       (load log v x ord pick).2.2.cur = max v.cur (log[j]?.getD default).carried) := by
+  unfold load
+  dsimp only
+  cases h : (admissible log v x).reverse[min pick ((admissible log v x).length - 1)]? with
+  | none => left; rfl
+  | some j =>
+    right
+    refine ⟨j, ?_, rfl, rfl, ?_, ?_, ?_⟩
+    · have := List.mem_of_getElem? h
+      simpa using this
+    · dsimp only; split <;> rfl
+    · dsimp only; split <;> rfl
+    · dsimp only
+      split
+      · right; rfl
+      · left; rfl
+
+theorem load_cohOk {log : Log} {v : View} (x : Loc) (ord : Ord) (pick : Nat) (hv : CohOk log v) :
+    CohOk log (load log v x ord pick).2.2 := by
+  rcases load_spec log v x ord pick with h | ⟨j, hj, _, _, hc, _, _⟩
+  · rw [h]; exact hv
+  · intro y i hy
+    rw [cohOf_congr hc, cohOf_setCoh]
+    split
+    · rename_i hxy
+      subst hxy
+      exact le_of_lastBefore hy (mem_admissible hj)
+    · exact hv y i hy
+
+/-- a fresh read (pick 0) under a coherent view returns the newest value at the location -/
+theorem load_fresh {log : Log} {v : View} (x : Loc) (ord : Ord) (hv : CohOk log v) :
+    (load log v x ord 0).1 = latest log x := by
+  cases h : lastBefore log x log.length with
+  | none =>
+    rw [latest_none h]
+    unfold load
+    simp [admissible_nil h]
+  | some j =>
+    rw [latest_some h]
+    have hl := admissible_last (v := v) hv h
+    unfold load
+    dsimp only
+    have : (admissible log v x).reverse[min 0 ((admissible log v x).length - 1)]? = some j := by
+      rw [Nat.zero_min, ← List.head?_eq_getElem?, List.head?_reverse, hl]
+    rw [this]
+
+/-! ### C03 (ii): a call with fresh reads on a quiescent log -/
+
+/-- reader step with fresh reads, keeping only what the `freshCall` fold keeps -/
+def rStep2 (a : Ann) (log : Log) (r : Reader) : Reader × Option RResult :=
+  ((rStep a log r 0 0).1, (rStep a log r 0 0).2.1)
+
+theorem fresh_version (a : Ann) (log : Log) (r : Reader) (hpc : r.pc = .version)
+    (hc : CohOk log r.view) (hv : latest log .version ≠ 0) :
+    ∃ r', rStep2 a log r = (r', none) ∧ r'.pc = .gen1 ∧ CohOk log r'.view ∧
+      r'.cacheGen = r.cacheGen ∧ r'.cache = r.cache := by
+  unfold rStep2 rStep
+  rw [hpc]
+  dsimp only
+  rw [if_neg (by rw [load_fresh _ _ hc]; exact hv)]
+  exact ⟨_, rfl, rfl, load_cohOk _ _ _ hc, rfl, rfl⟩
+
+theorem fresh_gen1_go (a : Ann) (log : Log) (r : Reader) (hpc : r.pc = .gen1)
+    (hc : CohOk log r.view) (hg : latest log .gen ≠ 0) (he : latest log .gen % 2 = 0)
+    (hne : r.cacheGen ≠ latest log .gen) :
+    ∃ r', rStep2 a log r = (r', none) ∧ r'.pc = .copy (latest log .gen) RETRIES (List.range N) [] ∧
+      CohOk log r'.view := by
+  unfold rStep2 rStep
+  rw [hpc]
+  dsimp only
+  rw [if_neg (by rw [load_fresh _ _ hc]; omega)]
+  exact ⟨_, rfl, by rw [load_fresh _ _ hc], load_cohOk _ _ _ hc⟩
+
+theorem fresh_gen1_cache (a : Ann) (log : Log) (r : Reader) (hpc : r.pc = .gen1)
+    (hc : CohOk log r.view) (heq : r.cacheGen = latest log .gen) :
+    (rStep2 a log r).2 = some (.ok r.cache) := by
+  unfold rStep2 rStep
+  rw [hpc]
+  dsimp only
+  rw [if_pos (by rw [load_fresh _ _ hc]; exact Or.inr (Or.inl heq.symm))]
+
+theorem fresh_copy (a : Ann) (log : Log) (r : Reader) (g k c : Nat) (rest : List Nat)
+    (got : List (Nat × Nat)) (hpc : r.pc = .copy g k (c :: rest) got) (hnm : c ∉ rest)
+    (hc : CohOk log r.view) :
+    ∃ r', rStep2 a log r = (r', none) ∧
+      r'.pc = (if rest.isEmpty then afterCopy a g k ((c, latest log (.cell c)) :: got)
+               else .copy g k rest ((c, latest log (.cell c)) :: got)) ∧
+      CohOk log r'.view := by
+  unfold rStep2 rStep
+  rw [hpc]
+  have h0 : (c :: rest)[min 0 ((c :: rest).length - 1)]? = some c := by simp
+  have hf : (c :: rest).filter (· != c) = rest := by
+    rw [List.filter_cons]
+    simp only [bne_self_eq_false, Bool.false_eq_true, if_false]
+    rw [List.filter_eq_self]
+    intro x hx
+    have : x ≠ c := by intro e; exact hnm (e ▸ hx)
+    simp [this]
+  dsimp only
+  rw [h0]
+  dsimp only
+  rw [hf, load_fresh _ _ hc]
+  exact ⟨_, rfl, rfl, load_cohOk _ _ _ hc⟩
+
+theorem fresh_fence (a : Ann) (log : Log) (r : Reader) (g k : Nat) (got : List (Nat × Nat))
+    (hpc : r.pc = .fence g k got) (hc : CohOk log r.view) :
+    ∃ r', rStep2 a log r = (r', none) ∧ r'.pc = .gen2 g k got ∧ CohOk log r'.view := by
+  unfold rStep2 rStep
+  rw [hpc]
+  refine ⟨_, rfl, rfl, ?_⟩
+  intro x j hx
+  have : (fenceAcq r.view (a.rFence.getD .relaxed)).coh = r.view.coh := by
+    unfold fenceAcq; split <;> rfl
+  dsimp only
+  rw [cohOf_congr this]
+  exact hc x j hx
+
+theorem fresh_gen2 (a : Ann) (log : Log) (r : Reader) (k : Nat) (got : List (Nat × Nat))
+    (hpc : r.pc = .gen2 (latest log .gen) k got) (hc : CohOk log r.view) :
+    (rStep2 a log r).2 = some (.ok (assemble got)) := by
+  unfold rStep2 rStep
+  rw [hpc]
+  dsimp only
+  rw [if_pos (by rw [load_fresh _ _ hc])]
+
+
+/-- the fold of `C03.freshCall`, over any list of (ignored) indices -/
+def freshFold (a : Ann) (log : Log) (st : Reader × Option RResult) (ks : List Nat) :
+    Reader × Option RResult :=
+  ks.foldl (fun (st : Reader × Option RResult) _ =>
+    if st.2.isSome then st else
+    let out := rStep a log st.1 0 0
+    (out.1, out.2.1)) st
+
+theorem freshFold_some (a : Ann) (log : Log) (r : Reader) (x : RResult) (ks : List Nat) :
+    freshFold a log (r, some x) ks = (r, some x) := by
+  induction ks with
+  | nil => rfl
+  | cons k ks ih => unfold freshFold at *; rw [List.foldl_cons]; simpa using ih
+
+theorem freshFold_step (a : Ann) (log : Log) (r : Reader) (k : Nat) (ks : List Nat) :
+    freshFold a log (r, none) (k :: ks) = freshFold a log (rStep2 a log r) ks := by
+  unfold freshFold rStep2
+  rw [List.foldl_cons]
+  simp
+
+theorem freshFold_done (a : Ann) (log : Log) (r : Reader) (x : RResult) (k : Nat) (ks : List Nat)
+    (h : (rStep2 a log r).2 = some x) : (freshFold a log (r, none) (k :: ks)).2 = some x := by
+  rw [freshFold_step]
+  have : rStep2 a log r = ((rStep2 a log r).1, some x) := by rw [← h]
+  rw [this, freshFold_some]
+
+theorem assemble_seven (v0 v1 v2 v3 v4 v5 v6 : Nat) :
+    assemble [(6, v6), (5, v5), (4, v4), (3, v3), (2, v2), (1, v1), (0, v0)] =
+      [v0, v1, v2, v3, v4, v5, v6] := by
+  simp [assemble, N, List.range, List.range.loop, List.find?]
+
+theorem fresh_catches_up (a : Ann) (log : Log) (r : Reader)
+    (hv : latest log .version ≠ 0) (hg : latest log .gen ≠ 0) (he : latest log .gen % 2 = 0)
+    (hne : r.cacheGen ≠ latest log .gen) (hview : CohOk log r.view) :
+    (freshFold a log (r.call, none) (List.range (N + 4))).2 =
+      some (.ok ((List.range N).map (fun c => latest log (.cell c)))) := by
+  have hr : List.range (N + 4) = [0, 1, 2, 3, 4, 5, 6, 7, 8, 9, 10] := by decide
+  have hN : List.range N = [0, 1, 2, 3, 4, 5, 6] := by decide
+  rw [hr]
+  obtain ⟨r1, e1, p1, c1, g1, _⟩ := fresh_version a log r.call rfl hview hv
+  rw [freshFold_step, e1]
+  obtain ⟨r2, e2, p2, c2⟩ := fresh_gen1_go a log r1 p1 c1 hg he (by rw [g1]; exact hne)
+  rw [freshFold_step, e2]
+  rw [hN] at p2 ⊢
+  obtain ⟨r3, e3, p3, c3⟩ := fresh_copy a log r2 _ _ _ _ _ p2 (by decide) c2
+  rw [freshFold_step, e3]
+  simp only [List.isEmpty_cons, Bool.false_eq_true, if_false] at p3
+  obtain ⟨r4, e4, p4, c4⟩ := fresh_copy a log r3 _ _ _ _ _ p3 (by decide) c3
+  rw [freshFold_step, e4]
+  simp only [List.isEmpty_cons, Bool.false_eq_true, if_false] at p4
+  obtain ⟨r5, e5, p5, c5⟩ := fresh_copy a log r4 _ _ _ _ _ p4 (by decide) c4
+  rw [freshFold_step, e5]
+  simp only [List.isEmpty_cons, Bool.false_eq_true, if_false] at p5
+  obtain ⟨r6, e6, p6, c6⟩ := fresh_copy a log r5 _ _ _ _ _ p5 (by decide) c5
+  rw [freshFold_step, e6]
+  simp only [List.isEmpty_cons, Bool.false_eq_true, if_false] at p6
+  obtain ⟨r7, e7, p7, c7⟩ := fresh_copy a log r6 _ _ _ _ _ p6 (by decide) c6
+  rw [freshFold_step, e7]
+  simp only [List.isEmpty_cons, Bool.false_eq_true, if_false] at p7
+  obtain ⟨r8, e8, p8, c8⟩ := fresh_copy a log r7 _ _ _ _ _ p7 (by decide) c7
+  rw [freshFold_step, e8]
+  simp only [List.isEmpty_cons, Bool.false_eq_true, if_false] at p8
+  obtain ⟨r9, e9, p9, c9⟩ := fresh_copy a log r8 _ _ _ _ _ p8 (by decide) c8
+  rw [freshFold_step, e9]
+  simp only [List.isEmpty_nil, if_true] at p9
+  simp only [List.map_cons, List.map_nil]
+  rw [← assemble_seven]
+  unfold afterCopy at p9
+  cases hf : a.rFence with
+  | none =>
+    rw [hf] at p9
+    exact freshFold_done a log r9 _ _ _ (fresh_gen2 a log r9 _ _ p9 c9)
+  | some o =>
+    rw [hf] at p9
+    obtain ⟨r10, e10, p10, c10⟩ := fresh_fence a log r9 _ _ _ p9 c9
+    rw [freshFold_step, e10]
+    exact freshFold_done a log r10 _ _ _ (fresh_gen2 a log r10 _ _ p10 c10)
+
+theorem fresh_same_generation (a : Ann) (log : Log) (r : Reader)
+    (hv : latest log .version ≠ 0) (heq : r.cacheGen = latest log .gen) (hview : CohOk log r.view) :
+    (freshFold a log (r.call, none) (List.range 2)).2 = some (.ok r.cache) := by
+  have hr : List.range 2 = [0, 1] := by decide
+  rw [hr]
+  obtain ⟨r1, e1, p1, c1, g1, k1⟩ := fresh_version a log r.call rfl hview hv
+  rw [freshFold_step, e1]
+  have : r.cache = r1.cache := by rw [k1]; rfl
+  rw [this]
+  exact freshFold_done a log r1 _ _ _ (fresh_gen1_cache a log r1 p1 c1 (by rw [g1]; exact heq))
+
+/-! ### C03: reachable views are consistent with the log -/
+
+theorem atLoc_append_lt (log : Log) (m : Msg) (x : Loc) (k : Nat) (hk : k < log.length) :
+    atLoc (log ++ [m]) x k = atLoc log x k := by
+  unfold atLoc
+  rw [List.getElem?_append_left hk]
+
+theorem atLoc_append_last (log : Log) (m : Msg) (x : Loc) :
+    atLoc (log ++ [m]) x log.length = (m.loc == x) := by
+  unfold atLoc
+  simp
+
+/-- the newest message at `y` after one more message was appended -/
+theorem lastBefore_append (log : Log) (m : Msg) (y : Loc) :
+    lastBefore (log ++ [m]) y (log ++ [m]).length =
+      if m.loc = y then some log.length else lastBefore log y log.length := by
+  have hlen : (log ++ [m]).length = log.length + 1 := by simp
+  split
+  · rename_i h
+    rw [lastBefore_some, hlen, Nat.min_self]
+    refine ⟨by omega, by rw [atLoc_append_last]; simp [h], fun k h1 h2 => by omega⟩
+  · rename_i h
+    have hlast : atLoc (log ++ [m]) y log.length = false := by rw [atLoc_append_last]; simp [h]
+    cases hh : lastBefore log y log.length with
+    | none =>
+      rw [lastBefore_none] at hh ⊢
+      rw [hlen, Nat.min_self]
+      rw [Nat.min_self] at hh
+      intro k hk
+      by_cases hkl : k < log.length
+      · rw [atLoc_append_lt _ _ _ _ hkl]; exact hh k hkl
+      · have : k = log.length := by omega
+        rw [this]; exact hlast
+    | some j =>
+      rw [lastBefore_some] at hh ⊢
+      rw [hlen, Nat.min_self]
+      rw [Nat.min_self] at hh
+      obtain ⟨h1, h2, h3⟩ := hh
+      refine ⟨by omega, by rw [atLoc_append_lt _ _ _ _ h1]; exact h2, fun k hk1 hk2 => ?_⟩
+      by_cases hkl : k < log.length
+      · rw [atLoc_append_lt _ _ _ _ hkl]; exact h3 k hk1 hkl
+      · have : k = log.length := by omega
+        rw [this]; exact hlast
+
+/-- the inductive strengthening of `ViewOk` -/
+structure SysInv (s : Sys) : Prop where
+  view : ViewOk s.log s.r.view
+  cohLen : ∀ x, s.r.view.cohOf x ≤ s.log.length
+  carried : ∀ m ∈ s.log, m.carried ≤ s.log.length
+  relFence : s.w.relFence ≤ s.log.length
+
+theorem viewOk_append {log : Log} {v : View} (m : Msg) (h : ViewOk log v)
+    (hl : ∀ x, v.cohOf x ≤ log.length) : ViewOk (log ++ [m]) v := by
+  obtain ⟨h1, h2, h3⟩ := h
+  have hlen : (log ++ [m]).length = log.length + 1 := by simp
+  refine ⟨by omega, by omega, ?_⟩
+  intro x j hx
+  rw [lastBefore_append] at hx
+  split at hx
+  · have : log.length = j := by simpa using hx
+    rw [← this]; exact hl x
+  · exact h3 x j hx
+
+
+theorem wStep_spec (a : Ann) (log : Log) (w : Writer) (pick : Nat) :
+    ((wStep a log w pick).1 = log ∧
+      ((wStep a log w pick).2.1.relFence = w.relFence ∨
+       (wStep a log w pick).2.1.relFence = log.length)) ∨
+    (∃ x val ord, (wStep a log w pick).1 = storeMsg log w.relFence x val ord ∧
+      (wStep a log w pick).2.1.relFence = w.relFence) := by
+  obtain ⟨pc, rf⟩ := w
+  cases pc with
+  | idle => left; exact ⟨rfl, Or.inl rfl⟩
+  | newVersion => right; exact ⟨_, _, _, rfl, rfl⟩
+  | loadGen rec => left; exact ⟨rfl, Or.inl rfl⟩
+  | store1 rec g => right; exact ⟨_, _, _, rfl, rfl⟩
+  | fence rec g =>
+    left
+    refine ⟨rfl, ?_⟩
+    simp only [wStep]
+    split
+    · right; rfl
+    · left; rfl
+  | copy rec g todo =>
+    simp only [wStep]
+    split
+    · left; exact ⟨rfl, Or.inl rfl⟩
+    · right; exact ⟨_, _, _, rfl, rfl⟩
+  | store2 rec g => right; exact ⟨_, _, _, rfl, rfl⟩
+
+theorem rStep_view (a : Ann) (log : Log) (r : Reader) (pc pm : Nat) :
+    (rStep a log r pc pm).1.view = r.view ∨
+    (∃ x ord, (rStep a log r pc pm).1.view = (load log r.view x ord pm).2.2) ∨
+    (∃ o, (rStep a log r pc pm).1.view = fenceAcq r.view o) := by
+  obtain ⟨rpc, view, cg, cache, gi, ai⟩ := r
+  cases rpc with
+  | idle => left; rfl
+  | version =>
+    right; left
+    refine ⟨.version, a.rVersion, ?_⟩
+    simp only [rStep]
+    split <;> rfl
+  | gen1 =>
+    right; left
+    refine ⟨.gen, a.rGen1, ?_⟩
+    simp only [rStep]
+    split <;> rfl
+  | copy g1 k todo got =>
+    simp only [rStep]
+    split
+    · left; rfl
+    · rename_i c _
+      right; left
+      exact ⟨.cell c, .relaxed, rfl⟩
+  | fence g1 k got => right; right; exact ⟨_, rfl⟩
+  | gen2 g1 k got =>
+    right; left
+    refine ⟨.gen, a.rGen2, ?_⟩
+    simp only [rStep]
+    split
+    · rfl
+    · split <;> rfl
+
+theorem load_viewOk {log : Log} {v : View} (x : Loc) (ord : Ord) (pick : Nat)
+    (h : ViewOk log v) (hl : ∀ y, v.cohOf y ≤ log.length)
+    (hcar : ∀ m ∈ log, m.carried ≤ log.length) :
+    ViewOk log (load log v x ord pick).2.2 ∧
+      ∀ y, (load log v x ord pick).2.2.cohOf y ≤ log.length := by
+  have hcoh := load_cohOk x ord pick h.2.2
+  rcases load_spec log v x ord pick with e | ⟨j, hj, _, _, hc, hacq, hcur⟩
+  · rw [e]; exact ⟨h, hl⟩
+  · have hjl := atLoc_lt (mem_admissible hj)
+    have hm : (log[j]?.getD default).carried ≤ log.length := by
+      rw [List.getElem?_eq_getElem hjl]
+      exact hcar _ (List.getElem_mem hjl)
+    obtain ⟨h1, h2, _⟩ := h
+    refine ⟨⟨?_, ?_, hcoh⟩, ?_⟩
+    · rcases hcur with e | e <;> rw [e] <;> omega
+    · rw [hacq]; omega
+    · intro y
+      rw [cohOf_congr hc, cohOf_setCoh]
+      split
+      · omega
+      · exact hl y
+
+theorem fenceAcq_viewOk {log : Log} {v : View} (o : Ord) (h : ViewOk log v) :
+    ViewOk log (fenceAcq v o) ∧ ∀ y, (fenceAcq v o).cohOf y = v.cohOf y := by
+  obtain ⟨h1, h2, h3⟩ := h
+  unfold fenceAcq
+  split
+  · exact ⟨⟨by dsimp only; omega, h2, h3⟩, fun y => rfl⟩
+  · exact ⟨⟨h1, h2, h3⟩, fun y => rfl⟩
+
+theorem sysInv_init (ver gen : Nat) (cells : List Nat) : SysInv (Sys.init ver gen cells) := by
+  have hlen : (initBlock ver gen cells).length = cells.length + 2 := by simp [initBlock]
+  refine ⟨⟨Nat.zero_le _, Nat.zero_le _, fun x j _ => Nat.zero_le _⟩, fun x => Nat.zero_le _, ?_,
+    Nat.zero_le _⟩
+  intro m hm
+  show m.carried ≤ (initBlock ver gen cells).length
+  rw [hlen]
+  have hm' : m ∈ initBlock ver gen cells := hm
+  unfold initBlock at hm'
+  simp only [List.mem_append, List.mem_map, List.mem_cons, List.not_mem_nil, or_false] at hm'
+  rcases hm' with ⟨p, _, rfl⟩ | rfl | rfl <;> exact Nat.le_refl _
+
+theorem sysInv_storeMsg {s : Sys} (h : SysInv s) (rf : Nat) (hrf : rf ≤ s.log.length)
+    (x : Loc) (val : Nat) (ord : Ord) (w : Writer) (hw : w.relFence ≤ s.log.length + 1) :
+    SysInv { s with log := storeMsg s.log rf x val ord, w := w } := by
+  have hlen : (storeMsg s.log rf x val ord).length = s.log.length + 1 := by simp [storeMsg]
+  refine ⟨viewOk_append _ h.view h.cohLen, fun y => ?_, ?_, ?_⟩
+  · show s.r.view.cohOf y ≤ (storeMsg s.log rf x val ord).length
+    have := h.cohLen y; omega
+  · intro m hm
+    show m.carried ≤ (storeMsg s.log rf x val ord).length
+    rw [hlen]
+    have hm' : m ∈ s.log ++ [_] := hm
+    rw [List.mem_append, List.mem_singleton] at hm'
+    rcases hm' with hm' | rfl
+    · have := h.carried m hm'; omega
+    · dsimp only; split <;> omega
+  · show w.relFence ≤ (storeMsg s.log rf x val ord).length
+    omega
+
+theorem sysInv_step {a : Ann} {s t : Sys} (h : SysInv s) (hst : Step a s t) : SysInv t := by
+  cases hst with
+  | wNew _ => exact ⟨h.view, h.cohLen, h.carried, Nat.zero_le _⟩
+  | wWrite rec _ _ => exact ⟨h.view, h.cohLen, h.carried, h.relFence⟩
+  | wStep pick _ =>
+    rcases wStep_spec a s.log s.w pick with ⟨e1, e2⟩ | ⟨x, val, ord, e1, e2⟩
+    · rw [e1]
+      refine ⟨h.view, h.cohLen, h.carried, ?_⟩
+      show (wStep a s.log s.w pick).2.1.relFence ≤ s.log.length
+      rcases e2 with e | e <;> rw [e]
+      · exact h.relFence
+      · exact Nat.le_refl _
+    · rw [e1]
+      exact sysInv_storeMsg h _ h.relFence _ _ _ _ (by rw [e2]; have := h.relFence; omega)
+  | wKill => exact ⟨h.view, h.cohLen, h.carried, Nat.zero_le _⟩
+  | rOpen _ =>
+    exact ⟨⟨Nat.zero_le _, Nat.zero_le _, fun x j _ => Nat.zero_le _⟩, fun x => Nat.zero_le _,
+      h.carried, h.relFence⟩
+  | rCall _ => exact ⟨h.view, h.cohLen, h.carried, h.relFence⟩
+  | rStep pc pm _ =>
+    refine ⟨?_, ?_, h.carried, h.relFence⟩
+    · show ViewOk s.log (rStep a s.log s.r pc pm).1.view
+      rcases rStep_view a s.log s.r pc pm with e | ⟨x, ord, e⟩ | ⟨o, e⟩ <;> rw [e]
+      · exact h.view
+      · exact (load_viewOk x ord pm h.view h.cohLen h.carried).1
+      · exact (fenceAcq_viewOk o h.view).1
+    · show ∀ x, (rStep a s.log s.r pc pm).1.view.cohOf x ≤ s.log.length
+      rcases rStep_view a s.log s.r pc pm with e | ⟨x, ord, e⟩ | ⟨o, e⟩ <;> rw [e]
+      · exact h.cohLen
+      · exact (load_viewOk x ord pm h.view h.cohLen h.carried).2
+      · intro y; rw [(fenceAcq_viewOk o h.view).2]; exact h.cohLen y
+
+theorem sysInv_reachable {a : Ann} {s0 s : Sys} (h0 : SysInv s0) (hr : Reachable a s0 s) :
+    SysInv s := by
+  induction hr with
+  | refl => exact h0
+  | step _ hst ih => exact sysInv_step ih hst
+
 end ClockBound.SL
